@@ -921,7 +921,7 @@ def _nnls_problem(g, r=None, c=None):
     return UtM, UtU, rs
 
 
-@entry("hals_nnls", cb=True)
+@entry("hals_nnls", cb=True, deterministic=True)
 def e_hals(g):
     from tensorly.solvers.nnls import hals_nnls
 
@@ -941,7 +941,7 @@ def e_hals(g):
     return dict(fn=hals_nnls, kwargs=kw, exempt=exempt)
 
 
-@entry("fista")
+@entry("fista", deterministic=True)
 def e_fista(g):
     from tensorly.solvers.nnls import fista
 
@@ -958,7 +958,7 @@ def e_fista(g):
     return dict(fn=fista, kwargs=kw)
 
 
-@entry("active_set_nnls")
+@entry("active_set_nnls", deterministic=True)
 def e_asnnls(g):
     from tensorly.solvers.nnls import active_set_nnls
 
@@ -972,7 +972,7 @@ def e_asnnls(g):
     return dict(fn=active_set_nnls, kwargs=kw)
 
 
-@entry("admm")
+@entry("admm", deterministic=True)
 def e_admm(g):
     from tensorly.solvers.admm import admm
 
@@ -993,7 +993,7 @@ def e_admm(g):
     return dict(fn=admm, kwargs=kw)
 
 
-@entry("process_regularization_weights")
+@entry("process_regularization_weights", deterministic=True)
 def e_prw(g):
     from tensorly.solvers.penalizations import process_regularization_weights
 
